@@ -278,8 +278,15 @@ impl Token for &HTok {
     }
 }
 
+thread_local! {
+    /// how many of the replaced tokens the constructor below reads (a caller's `Replace` may read none, one -- e.g. to
+    /// copy the start time of the first word -- or all of them)
+    static CONSUME: Cell<usize> = Cell::new(usize::MAX);
+}
+
 impl Replace for HTok {
     fn replace<I: Iterator<Item = Self>>(replaced: I, data: String) -> Self {
+        let replaced = replaced.take(CONSUME.with(|c| c.get()));
         HTok {
             lower: data.to_lowercase(),
             text: data,
@@ -352,6 +359,7 @@ fn run_scan_plain<L: LangInterpreter>(l: &L, thr: f64, toks: &[HTok]) -> String 
 }
 
 fn run_scan<L: LangInterpreter>(l: &L, thr: f64, toks: &[HTok]) -> String {
+    CONSUME.with(|c| c.set(usize::MAX));
     // batch
     let occs = find_numbers(toks.iter(), l, thr);
     let occs_s: Vec<String> = occs.iter().map(show_occ).collect();
@@ -386,7 +394,26 @@ fn run_scan<L: LangInterpreter>(l: &L, thr: f64, toks: &[HTok]) -> String {
             }
         })
         .collect();
-    format!("{}|{}|{}", occs_s.join(","), trace.join(","), repl.join(","))
+    // the same with constructors that read none / only the first of the replaced tokens: the resulting stream must not
+    // depend on how much of its iterator the constructor consumes (reported only when it does)
+    let shape = |v: &Vec<HTok>| -> String {
+        v.iter()
+            .map(|t| if t.idx == usize::MAX { format!("R{}", escape(&t.text)) } else { format!("K{}", t.idx) })
+            .collect::<Vec<String>>()
+            .join(",")
+    };
+    let full_shape = shape(&out);
+    let mut extra = String::new();
+    for k in [0usize, 1] {
+        CONSUME.with(|c| c.set(k));
+        let o2 = replace_numbers_in_stream(toks.to_vec(), l, thr);
+        CONSUME.with(|c| c.set(usize::MAX));
+        if shape(&o2) != full_shape {
+            extra = format!("|PARTIAL{}:{}", k, shape(&o2));
+            break;
+        }
+    }
+    format!("{}|{}|{}{}", occs_s.join(","), trace.join(","), repl.join(","), extra)
 }
 
 fn parse_thr(s: &str) -> f64 {
